@@ -175,6 +175,10 @@ impl Slatepack {
 		writer.finish()?;
 		self.payload = encrypted.to_vec();
 		self.mode = 1;
+		// The metadata now lives inside the ciphertext. Don't keep a clear copy in the
+		// struct: `encrypted_meta` is serialized by serde whenever it isn't empty, so the
+		// JSON form of an encrypted slatepack would disclose the sender (and recipient list)
+		self.encrypted_meta = default_enc_metadata();
 		Ok(())
 	}
 
